@@ -144,12 +144,20 @@ def gen_optspec(cs, lab):
     for j in range(nopt):
         key = OPTKEYS[(start + j) % len(OPTKEYS)]
         kind = cs.weighted(f"{lab}.o{j}.kind",
-                           [("ints", 5), ("strs", 4), ("bare", 2)])
+                           [("ints", 5), ("strs", 4), ("bare", 2),
+                            ("mixed", 2), ("intfloat", 1)])
         if kind == "bare":
             v = cs.choice(f"{lab}.o{j}.bare", [3, "solo", 2.5, 0, "a"])
             spec.append((key, True, [v]))
             continue
-        pool = INTS if kind == "ints" else STRS
+        if kind == "mixed":
+            # integers and identifier-like strings in one option
+            pool = [INTS[(q * 3) % len(INTS)] if q % 2 == 0
+                    else STRS[(q * 3) % len(STRS)] for q in range(10)]
+        elif kind == "intfloat":
+            pool = [1, 2.5, 3, 0.5, 7, -1.5, 10, 21, 0, 100]
+        else:
+            pool = INTS if kind == "ints" else STRS
         nv = cs.between(f"{lab}.o{j}.nv", 1, 5)
         st = cs.draw(f"{lab}.o{j}.s0", len(pool))
         stride = cs.choice(f"{lab}.o{j}.stride", [1, 3, 7])
